@@ -452,3 +452,9 @@ func sameConcrete(a, b value) (eq bool) {
 	}
 	return false
 }
+
+func smtConstInt(v uint64) *smt.Term { return smt.Const(64, v) }
+func smtBit(t *smt.Term, i int) *smt.Term {
+	return smt.Eq(smt.Extract(t, i, i), smt.Const(1, 1))
+}
+func smtIte(c, a, b *smt.Term) *smt.Term { return smt.Ite(c, a, b) }
